@@ -11,7 +11,8 @@
    [guarded] only constrains restarts that use a snapshot, and holds for every history without a
    graceful restart (C09_guarded_without_graceful_restart). *)
 From Coq Require Import List NArith Bool.
-From V Require Import C09.Model C09.Proofs C09.Proofs_paging C09.Proofs_inv C09.Proofs_cache C09.Proofs_main.
+From V Require Import C09.Model C09.Proofs C09.Proofs_paging C09.Proofs_inv C09.Proofs_cache C09.Proofs_main
+  C09.Proofs_border.
 Import ListNotations.
 Open Scope N_scope.
 
@@ -116,7 +117,7 @@ Print Assumptions C09_iterator_walks_range.
 
 (* pre-confirmed blocks are pre-filtered by their own bloom (EventMatcher.TestBloom): a block holding a
    matching event is never rejected - for every filter shape, empty key positions included. (Paging across
-   the canonical / pre-confirmed border is modelled in do_query_pre and checked by correspondence only.) *)
+   the canonical / pre-confirmed border: C09_paging_concat_preconfirmed below.) *)
 Theorem C09_preconfirmed_no_false_negative :
   forall (member : list bkey -> bkey -> bool),
   (forall ks k, In k ks -> member ks k = true) ->
@@ -124,6 +125,123 @@ Theorem C09_preconfirmed_no_false_negative :
   filter (fev_matches flt) (flat_block n b) <> [] -> cand_test member (block_keys b) flt = true.
 Proof. intros member Hs n b flt. apply (block_candidate member Hs n b (block_keys b) flt). auto. Qed.
 Print Assumptions C09_preconfirmed_no_false_negative.
+
+(* ---------- ranges that reach into the pre-confirmed blocks (EventFilter.Events with a PreConfirmedReader) ----------
+   pre = the pre-confirmed blocks above the head, oldest first (numbers head+1, head+2, ...).
+   filter_spec_pre = the canonical matches of the range in chain order, then the pre-confirmed matches;
+   from_block = pre_confirmed (the sentinel 2^64-1) denotes the most recent pre-confirmed block only.
+   The hypothesis on the lengths says that block numbers fit uint64. *)
+
+(* the spec is nothing but filter_spec of the chain extended by the pre-confirmed blocks *)
+Theorem C09_spec_preconfirmed_is_spec_of_extended_chain :
+  forall ch flt from to pre, ch <> [] -> from <> sentinel ->
+  filter_spec_pre ch flt from to pre = filter_spec (ch ++ pre) flt from to.
+Proof. exact filter_spec_pre_app. Qed.
+Print Assumptions C09_spec_preconfirmed_is_spec_of_extended_chain.
+
+(* No false negative, restated for ranges that include pre-confirmed blocks: every block of the chain
+   extended by the pre-confirmed tail that holds a matching event is a candidate - through the bloom
+   index for canonical blocks, through the block's own bloom (TestBloom) for pre-confirmed ones. *)
+Theorem C09_no_false_negative_with_preconfirmed :
+  forall (W : N), 0 < W ->
+  forall (member : list bkey -> bkey -> bool),
+  (forall ks k, In k ks -> member ks k = true) ->
+  forall ops : list op,
+  guarded W member init_state ops = true ->
+  let s := ensure W (run W member init_state ops) in
+  forall pre flt n, n < lenN (chain s) + lenN pre ->
+    block_matches (chain s ++ pre) flt n <> [] ->
+    cand_ext W member s flt pre n = Some true.
+Proof. exact no_false_negative_pre_lemma. Qed.
+Print Assumptions C09_no_false_negative_with_preconfirmed.
+
+(* Paging across the canonical / pre-confirmed border: for every stored chain (guarded history), every
+   pre-confirmed tail, every filter, range, chunk size > 0 and scan limit, the concatenation of the pages
+   obtained by following the continuation tokens - canonical tokens (n, p) with n <= head, then, from the
+   page in which the canonical part ends, tokens (n, p) with n > head - is the unpaged list. The fuel
+   (= number of pages allowed) only has to reach the progress bound max(1, blocks in range + matches). *)
+Theorem C09_paging_concat_preconfirmed :
+  forall (W : N), 0 < W ->
+  forall (member : list bkey -> bkey -> bool),
+  (forall ks k, In k ks -> member ks k = true) ->
+  forall ops : list op,
+  guarded W member init_state ops = true ->
+  let s := ensure W (run W member init_state ops) in
+  chain s <> [] ->
+  forall pre flt from to chunk limit fuel, 0 < chunk ->
+  lenN (chain s) + lenN pre <= sentinel + 1 ->
+  (N.to_nat (page_bound (range_blocks (chain s) pre from to)
+                        (lenN (filter_spec_pre (chain s) flt from to pre))) <= fuel)%nat ->
+  pages_pre W member fuel s flt from to chunk limit pre = Some (filter_spec_pre (chain s) flt from to pre).
+Proof. exact paging_concat_preconfirmed_lemma. Qed.
+Print Assumptions C09_paging_concat_preconfirmed.
+
+(* the same for any state satisfying the index invariant, together with the facts about the page sequence *)
+Theorem C09_paging_concat_preconfirmed_state :
+  forall (W : N), 0 < W ->
+  forall (member : list bkey -> bkey -> bool),
+  (forall ks k, In k ks -> member ks k = true) ->
+  forall s, rinv W s -> cache_fresh s -> chain s <> [] ->
+  forall pre flt from to chunk limit fuel, 0 < chunk ->
+  lenN (chain s) + lenN pre <= sentinel + 1 ->
+  (N.to_nat (page_bound (range_blocks (chain s) pre from to)
+                        (lenN (filter_spec_pre (chain s) flt from to pre))) <= fuel)%nat ->
+  exists ps, page_seq W member fuel s flt from to chunk limit (0, 0) pre = Some ps /\
+    concat (map fst ps) = filter_spec_pre (chain s) flt from to pre /\
+    lenN ps <= page_bound (range_blocks (chain s) pre from to)
+                          (lenN (filter_spec_pre (chain s) flt from to pre)) /\
+    pages_ok chunk limit (pre_start (chain s) pre from, 0) (page_sizes ps) = true.
+Proof. exact page_seq_state. Qed.
+Print Assumptions C09_paging_concat_preconfirmed_state.
+
+(* Progress measure: following the tokens terminates after at most max(1, blocks in range + matches)
+   pages (page_count_ok), every page holds at most chunk events, an empty page carries a token only
+   with a scan limit set and the token at the start of a block, and every token lies strictly after the
+   position its page started from (pages_ok) - so "concatenating the pages" is total for every chunk
+   size and scan limit. page_count_ok and pages_ok are the booleans the harness evaluates on the page
+   sequences of the implementation. *)
+Theorem C09_paging_terminates :
+  forall (W : N), 0 < W ->
+  forall (member : list bkey -> bkey -> bool),
+  (forall ks k, In k ks -> member ks k = true) ->
+  forall ops : list op,
+  guarded W member init_state ops = true ->
+  let s := ensure W (run W member init_state ops) in
+  chain s <> [] ->
+  forall pre flt from to chunk limit fuel, 0 < chunk ->
+  lenN (chain s) + lenN pre <= sentinel + 1 ->
+  let bound := page_bound (range_blocks (chain s) pre from to)
+                          (lenN (filter_spec_pre (chain s) flt from to pre)) in
+  (N.to_nat bound <= fuel)%nat ->
+  exists ps, page_seq W member fuel s flt from to chunk limit (0, 0) pre = Some ps /\
+    page_count_ok (range_blocks (chain s) pre from to)
+                  (lenN (filter_spec_pre (chain s) flt from to pre)) (lenN ps) = true /\
+    pages_ok chunk limit (pre_start (chain s) pre from, 0) (page_sizes ps) = true.
+Proof. exact paging_progress_lemma. Qed.
+Print Assumptions C09_paging_terminates.
+
+(* a page never holds more than chunk events - for ANY state, ANY token (also tokens the model never
+   produces), any pre-confirmed tail, any scan limit; no invariant needed *)
+Theorem C09_page_within_chunk :
+  forall (W : N), 0 < W ->
+  forall (member : list bkey -> bkey -> bool) s flt from to chunk limit tok pre s' evs t,
+  do_query_pre W member s flt from to chunk limit tok pre = (s', OPage evs t) -> lenN evs <= chunk.
+Proof. exact page_within_chunk. Qed.
+Print Assumptions C09_page_within_chunk.
+
+(* an empty page with a continuation token only occurs when the scan limit was hit: a limit is set, the
+   token is (n, 0) with n a canonical block strictly after the resume block, and exactly [limit] candidate
+   blocks were scanned between the resume block and n - for ANY state and ANY token *)
+Theorem C09_empty_page_only_at_scan_limit :
+  forall (W : N), 0 < W ->
+  forall (member : list bkey -> bkey -> bool) s flt from to chunk limit tok pre s' t,
+  0 < chunk ->
+  do_query_pre W member s flt from to chunk limit tok pre = (s', OPage [] t) -> tok_none t = false ->
+  0 < limit /\ snd t = 0 /\ (if tok_none tok then from else fst tok) < fst t /\
+  fst t <= lenN (chain s) - 1 /\
+  lenN (cands_between W member (ensure W s) flt (if tok_none tok then from else fst tok) (fst t - 1)) = limit.
+Proof. exact empty_page_only_at_limit. Qed.
+Print Assumptions C09_empty_page_only_at_scan_limit.
 
 (* starknet_getEvents (rpc/v8|v9|v10 events.go, setEventFilterRange): with the block ids resolved as the
    handlers do (numeric to_block bounded by the head, numeric from_block taken as it is), a page never
@@ -226,4 +344,41 @@ Example restart_rebuild_fixed :
   cand_item 3 member_exact s fB 1 = Some true /\
   pages 3 member_exact 20 s fB 0 10 1 1 (0, 0) = Some [Build_fev 1 0 0 evB] /\
   snd (step 3 member_exact s (Store [])) = OOk.
+Proof. vm_compute. repeat split; reflexivity. Qed.
+
+(* 4. non-vacuity of the border theorems (W = 2): head = 2, three pre-confirmed blocks 3, 4 (empty), 5; the
+   page sequences show the three kinds of border tokens: (2, p) in the LAST CANONICAL block, (3, 0) at the
+   start of the FIRST PRE-CONFIRMED block (the canonical part filled the chunk exactly), (3, 1) / (5, 2) in
+   the MIDDLE of a pre-confirmed block; with a scan limit of 1 every page ends at a candidate block. *)
+Definition h_border : list op :=
+  [Store [[evA]]; Store [[evA; evA]]; Store [[evB; evA; evA]]; Query fA 0 10 5 0 (0, 0); Restart false].
+Definition pre_border : list block := [[[evA]; [evA]]; []; [[evA; evB; evA]]].
+Definition toks (o : option (list (list fev * (N * N)))) : list (N * (N * N)) :=
+  match o with Some ps => page_sizes ps | None => [] end.
+
+Example border_paging :
+  guarded 2 member_exact init_state h_border = true /\
+  let s := ensure 2 (run 2 member_exact init_state h_border) in
+  lenN (chain s) = 3 /\
+  range_blocks (chain s) pre_border 0 10 = 6 /\ lenN (filter_spec_pre (chain s) fA 0 10 pre_border) = 9 /\
+  toks (page_seq 2 member_exact 15 s fA 0 10 2 0 (0, 0) pre_border) =
+    [(2, (1, 1)); (2, (2, 2)); (2, (3, 1)); (2, (5, 2)); (1, (0, 0))] /\
+  toks (page_seq 2 member_exact 15 s fA 0 10 5 0 (0, 0) pre_border) = [(5, (3, 0)); (4, (0, 0))] /\
+  toks (page_seq 2 member_exact 15 s fA 0 10 4 1 (0, 0) pre_border) =
+    [(1, (1, 0)); (2, (2, 0)); (4, (5, 0)); (2, (0, 0))] /\
+  toks (page_seq 2 member_exact 15 s fA sentinel sentinel 1 2 (0, 0) pre_border) = [(1, (5, 2)); (1, (0, 0))] /\
+  pages_pre 2 member_exact 15 s fA 0 10 2 0 pre_border = Some (filter_spec_pre (chain s) fA 0 10 pre_border) /\
+  pages_pre 2 member_exact 15 s fA 0 10 4 1 pre_border = Some (filter_spec (chain s ++ pre_border) fA 0 10) /\
+  pages_ok 2 0 (0, 0) (toks (page_seq 2 member_exact 15 s fA 0 10 2 0 (0, 0) pre_border)) = true /\
+  page_count_ok 6 9 5 = true.
+Proof. vm_compute. repeat split; reflexivity. Qed.
+
+(* the predicates are not vacuous: an oversized page, an empty page with a token but no scan limit, a token
+   that does not advance and an overlong page sequence are all rejected *)
+Example paging_predicates_reject :
+  pages_ok 2 0 (0, 0) [(3, (0, 0))] = false /\
+  pages_ok 2 0 (0, 0) [(0, (4, 0)); (1, (0, 0))] = false /\
+  pages_ok 2 1 (0, 0) [(0, (4, 1)); (1, (0, 0))] = false /\
+  pages_ok 2 0 (3, 1) [(2, (3, 1)); (1, (0, 0))] = false /\
+  page_count_ok 2 1 4 = false /\ page_count_ok 0 0 1 = true.
 Proof. vm_compute. repeat split; reflexivity. Qed.
